@@ -6,6 +6,7 @@ From Coq Require Import String.
 From Coq Require Import List Arith NArith Bool.
 From Verif.Common Require Import Labels Packet.
 From Verif.C29 Require Export Model Spec ProofsSel ProofsPorts ProofsMain ProofsValid.
+From Verif.C29 Require Import ProofsBridge.
 Import ListNotations.
 Open Scope N_scope.
 
@@ -52,6 +53,8 @@ Proof. vm_compute. auto. Qed.
 Example ex_allowed_named : k8s_allows [ex_np] ex_cl (ex_conn (ext_party 167837700) 17 53) = true
   /\ cal_allows [conv_np ex_np] (cparty_of ex_cl (ext_party 167837700)) (cparty_of ex_cl (pod_party 167837953 ex_db)) 17 53 = true.
 Proof. vm_compute. auto. Qed.
+Example ex_bridgeable : forallb bridgeable (cp_in (conv_np ex_np)) = true.
+Proof. vm_compute. reflexivity. Qed.
 Example ex_ports_merged :
   map cr_dst_ports (cp_in (conv_np ex_np)) = [[CRange 80 83]; [CRange 80 83]; [CNamed (b "dns")]; [CNamed (b "dns")]].
 Proof. vm_compute. reflexivity. Qed.
